@@ -128,9 +128,10 @@ def random_pair(rng, tier):
     L = np.linalg.cholesky(Ma)
     Ka = L @ ((Q * w2) @ Q.T) @ L.T
     Ka = (Ka + Ka.T) / 2
-    K = sp.csr_matrix(eig.embed(Ka, n, act))
-    M = sp.csr_matrix(eig.embed(Ma, n, act))
-    return K, M, dict(src='random', n=n, n_active=na, spectrum=style), na
+    us = gen.unit_scale(rng)
+    K = sp.csr_matrix(eig.embed(Ka, n, act) * us)
+    M = sp.csr_matrix(eig.embed(Ma, n, act) * us)
+    return K, M, dict(src='random', n=n, n_active=na, spectrum=style, unit_scale=us), na
 
 
 def run_case(rng, tier, idx):
@@ -197,7 +198,9 @@ def run_case(rng, tier, idx):
         except Exception as e:
             return Case({'src': which}).reject('%s building %s: %s' % (type(e).__name__, which, str(e)[:100]))
         k = min(k, max(1, len(gen.active_dofs(M)) - 2))
-        desc.update(k=k, sparse_solver=sparse, sort=sort)
+        us = gen.unit_scale(rng)
+        K = K * us; M = M * us
+        desc.update(k=k, sparse_solver=sparse, sort=sort, unit_scale=us)
         c = Case(desc)
         c.tag('src:' + mode, 'sparse' if sparse else 'dense', 'sort' if sort else 'nosort')
         monitors.drain('freq')
